@@ -215,6 +215,32 @@ def emit(ctx):
                "def objCoeff (length order : Int) : Int :=\n  %s\n" % obj)
     out.append("/-- max_order = (maximum degree) + maxOrderOffset -/\ndef maxOrderOffset : Nat := %d\n" % off)
 
+    # --- fall-back sites of convert_to_dot_bracket: is `fcfs` a (cached) property, and is each
+    #     fall-back written as a call `self.fcfs()` (True) or as an attribute access `self.fcfs` (False)
+    is_prop = None
+    f = find_function(tree, "BpSeq.fcfs")
+    if f is not None:
+        decs = [ast.unparse(d) for d in f.decorator_list]
+        is_prop = any(d.split(".")[-1] in ("cached_property", "property") for d in decs)
+    sites = None
+    fn = find_function(tree, "BpSeq.convert_to_dot_bracket")
+    if fn is not None:
+        sites = []
+        rets = sorted((n for n in ast.walk(fn) if isinstance(n, ast.Return) and n.value is not None), key=lambda n: n.lineno)
+        for r in rets:
+            v = r.value
+            if isinstance(v, ast.Call) and isinstance(v.func, ast.Attribute) and v.func.attr == "fcfs" and not v.args:
+                sites.append(True)
+            elif isinstance(v, ast.Attribute) and v.attr == "fcfs":
+                sites.append(False)
+    if is_prop is None or sites is None or len(sites) != 3:
+        ctx.lost("common.fallbackSites")
+        is_prop = ctx.pin("common.fcfsIsProperty", True)
+        sites = ctx.pin("common.fallbackCalls", [False, False, False])
+    out.append("/-- `BpSeq.fcfs` is declared as a (cached) property -/\ndef fcfsIsProperty : Bool := %s\n" % ("true" if is_prop else "false"))
+    out.append("/-- the three fall-backs of convert_to_dot_bracket (no solver, PulpSolverError, status not optimal): "
+               "written as a call `self.fcfs()`? -/\ndef fallbackCalls : List Bool := [%s]\n" % ", ".join("true" if x else "false" for x in sites))
+
     # --- enums and tables (live objects)
     lws = [m.name for m in C.LeontisWesthof]
     out.append("def lwNames : List String := " + lean_list([lean_str(n) for n in lws], 9) + "\n")
